@@ -34,6 +34,30 @@ CHECKS = {
             "connection, the scheduler reports hangs, channels must be empty at the end. Sampling, not proof.",
             "real RpcServer/_wire/_client/transports over simulated byte channels; pyarrow is a black box; OS pipes/sockets and Popen are stubs",
             "DESIGN.md §5 C04"),
+    "C05": ("exploration", SIM + "byzantine peer thread writing grammar-built request streams and garbage onto a simulated connection, interleaved with valid calls",
+            "Seeded sequences of byzantine well-framed requests (method/version/shm/trace/arbitrary metadata, arbitrary columns, 0-3 rows), "
+            "garbage byte strings and valid probe calls; one decodable response per well-framed request, next valid call correct, no hang "
+            "(scheduler deadlock detection), connection at a clean boundary.",
+            "real RpcServer/_read_request/shm attach/real client; channels and SharedMemory are stubs", "DESIGN.md §5 C05"),
+    "C06": ("exploration", SIM + "single-perturbation request mutator against a simulated socket connection and HTTP worker; invocation-recording implementation as monitor",
+            "Run-time monitor: every invocation recorded by the generated implementation must have been preceded by a conforming request; "
+            "perturbed requests must be rejected before dispatch (400 / error stream); method-raised TypeError/ArrowInvalid must be 200 + marker. "
+            "The scheduler contributes nothing for this property.",
+            "real request validation and status mapping; channels and WSGI invocation are stubs", "DESIGN.md §5 C06"),
+    "C08": ("exploration", SIM + "log-heavy programs on simulated transports vs the model's log sequence; scripted foreign peer sending log batches from a metadata grammar",
+            "Part 1: on_log invocation sequence equals the model's, each log no later than the data it precedes (pipe-family + HTTP with caps, "
+            "compression, externalisation). Part 2: a fake non-Python peer sends arbitrary log metadata before a valid result; the call must "
+            "succeed and the next call stay correct.",
+            "real client log dispatch and server log paths; part 2's server is a scripted fake", "DESIGN.md §5 C08"),
+    "C32": ("exploration", SIM + "2-3 borrower threads, the pool reaper and a closer over fake worker processes (real RpcServer threads) with line-level pre-emption in pool.py and a virtual clock",
+            "Seeded schedules and faults (worker dies idle/in use, spawn error, slow start); oracles: <= 1 holder per worker, idle <= max_idle "
+            "whenever the pool lock is free, hand-over only of live workers at a message boundary, every borrower reads only its own answers, no deadlock.",
+            "real pool.py and client; SubprocessTransport/Popen replaced by simulated server threads over dst channels", "DESIGN.md §5 C32"),
+    "C33": ("exploration", SIM + "real _serve_socket_threaded on a fake listener with clients arriving around the idle deadline; 2-3 launcher threads over a fake filesystem/flock/socket namespace",
+            "Seeded schedules: timer firing at every point relative to accept / count / connection end; concurrent launch() for same and "
+            "different hashes with slow or dying workers. Oracles: loop leaves only after a continuous idle period, every accepted connection "
+            "served; <= 1 live worker per hash, returned path accepting.",
+            "real _serve_socket_threaded/serve_unix/launcher; sockets, flock, filesystem, Popen are stubs", "DESIGN.md §5 C33"),
     "C07": ("exploration", SIM + "programs raising at every dispatch site run on a simulated connection and a simulated HTTP worker; wire tap + client-side oracle",
             "Seeded search over dispatch site x exception class x message; RpcError type/message/error_kind checked on both transports, the "
             "HTTP 200 + X-VGI-RPC-Error shape checked on every recorded response. The scheduler adds nothing here; the simulation "
